@@ -35,7 +35,7 @@ SOLVER_MS = 60000
 
 def make_case(seed):
     rnd = random.Random(seed)
-    kind = 'family' if seed % 3 else 'int'
+    kind = 'hand' if seed % 5 == 4 else ('family' if seed % 3 else 'int')
     return dict(seed=seed, kind=kind, qinit=QINITS[seed % 4], moore=rnd.random() < 0.5, plus_one=rnd.random() < 0.5,
                 objective='streett' if rnd.random() < 0.6 else 'rabin')
 
@@ -47,6 +47,8 @@ def build_case(c):
     from vlib import family
     from vlib.props import c01
     rnd = random.Random(c['seed'] * 31 + 7)
+    if c['kind'] == 'hand':
+        return build_hand_case(c, rnd)
     if c['kind'] == 'family':
         shape = rnd.choice(['S11', 'B11a'])
         aut, params = family.build(shape, c['moore'], c['plus_one'], qinit=c['qinit'])
@@ -109,6 +111,35 @@ def build_case(c):
         except AssertionError:
             return None, desc
     return aut, desc
+
+
+def build_hand_case(c, rnd):
+    """Hand-made (not synthesized) implementation: total action, initial condition of the component that
+    depends on the environment variable in a way compatible with the requested qinit form."""
+    import omega.symbolic.temporal as trl
+    aut = trl.Automaton()
+    yd = rnd.choice([(0, 3), (-2, 1)])
+    aut.declare_variables(x='bool', y=yd)
+    aut.varlist = dict(env=['x'], sys=['y'], impl=['y'])
+    aut.prime_varlists()
+    aut.moore, aut.plus_one, aut.qinit = True, c['plus_one'], c['qinit']
+    lo, hi = yd
+    k = rnd.randint(lo, hi)
+    aut.action['env'] = rnd.choice(['TRUE', "x' \\/ ~ x", "x' <=> ~ x"])
+    aut.action['impl'] = rnd.choice([
+        f"(y' = y)", f"(y < {hi} => (y' = y + 1)) /\\ (y = {hi} => (y' = {lo}))",
+        f"(x => (y' = {k})) /\\ (~ x => (y' = y))"])
+    aut.action['sys'] = aut.action['impl']
+    # component init valid for every environment value only at y = k
+    aut.init['impl'] = f"(x => (y >= {k})) /\\ (~ x => (y <= {k})) /\\ (y \\in {lo}..{hi})"
+    aut.init['sys'] = aut.init['impl']
+    aut.init['env'] = rnd.choice(['TRUE', 'x', '~ x'])
+    if c['qinit'] == '\\E \\E':
+        aut.init['env'] = 'TRUE'
+    aut.win['[]<>'] = aut.bdds_from('TRUE')
+    aut.win['<>[]'] = aut.bdds_from('FALSE')
+    c['objective'] = 'streett'
+    return aut, f'hand-made implementation y:{yd}, component init pivots at y = {k}'
 
 
 def check_cases(seeds):
@@ -340,7 +371,39 @@ def replay(payload):
             allowed = e != aut.false     # some next implementation value completes it
             if allowed != (outs.count(xs) == 1) or outs.count(xs) > 1:
                 return True, f'node {d}: next environment value {xn} allowed={allowed}, out-edges={outs.count(xs)}'
-    return False, 'edges and input-completeness hold on this graph (initial-node and liveness obligations: re-run the check)'
+    # initial nodes, by enumeration
+    init = [nodes[n] for n in g.initial_nodes]
+    qi = c['qinit']
+    for d in init:
+        if tt(aut.init['impl'], d) != aut.true:
+            return True, f'initial node {d} violates the initial condition of the implementation'
+        if qi != '\\E \\E' and tt(aut.init['env'], d) != aut.true:
+            return True, f'initial node {d} violates the environment initial condition'
+    allx = [dict(zip(env, xs)) for xs in itertools.product(*[vals(k) for k in env])]
+    ally = [dict(zip(impl, ys)) for ys in itertools.product(*[vals(k) for k in impl])]
+    if qi == '\\A \\A':
+        want = [dict(x, **y) for x in allx for y in ally
+                if tt(aut.init['env'], dict(x, **y)) == aut.true and tt(aut.init['impl'], dict(x, **y)) == aut.true]
+        if sorted(map(lambda d: sorted(d.items()), want)) != sorted(map(lambda d: sorted(d.items()), init)):
+            return True, f'{len(init)} initial nodes, {len(want)} states satisfy both initial conditions'
+    elif qi == '\\E \\E':
+        if len(init) != 1:
+            return True, f'{len(init)} initial nodes for \\E \\E'
+    else:
+        xs_init = [tuple(d[k] for k in env) for d in init]
+        if len(set(xs_init)) != len(xs_init):
+            return True, 'two initial nodes for the same environment value'
+        if qi == '\\E \\A' and len({tuple(d[k] for k in impl) for d in init}) > 1:
+            return True, 'more than one implementation valuation among the initial nodes of \\E \\A'
+        y0 = {k: init[0][k] for k in impl} if init else {}
+        for x in allx:
+            if qi == '\\A \\E':
+                admitted = any(tt(aut.init['env'], dict(x, **y)) == aut.true for y in ally)
+            else:
+                admitted = tt(aut.init['env'], dict(x, **y0)) == aut.true
+            if admitted != (tuple(x[k] for k in env) in xs_init):
+                return True, f'environment value {x}: admitted by EnvInit = {admitted}, has an initial node = {not admitted}'
+    return False, 'edges, input-completeness and initial nodes conform on this graph (liveness: re-run the check)'
 
 
 def run(tier, seed, t0, only=None):
